@@ -7,6 +7,7 @@ import MW.Props.C10
 #print axioms MW.Props.C10.halted_hook_without_effect
 #print axioms MW.Props.C10.breaker_tx_exact
 #print axioms MW.Props.C10.resume_tx_exact
+#print axioms MW.Props.C10.breaker_succeeds_for_admin_and_monitors
 #print axioms MW.Props.C10.flag_changes_only_by
 #print axioms MW.Props.C10.callbacks_keep_config
 #print axioms MW.Props.C10.C10_flag_step
